@@ -97,7 +97,9 @@ def fpow(F, a, e):
     return r
 
 
-def target_field(p, tower, nr2, nr6):
+def target_field(p, tower, nr2, nr6, nr3=None):
+    if tower == 32:                                   # Fp6 = Fp3[v]/(v^2 - u), Fp3 = Fp[u]/(u^3 - nr3)
+        return Quad(Cubic(Fp(p), nr3 % p), (0, 1, 0))
     F2 = Quad(Fp(p), nr2 % p)
     if tower == 4:
         return Quad(F2, (0, 1))
